@@ -782,8 +782,90 @@ fn bend_project(rng: &mut Rng, p: &mut Project) -> Vec<String> {
         .filter(|i| matches!(p.items[*i].kind, ItemKind::Enum { .. }))
         .collect();
     for _ in 0..rng.range(1, 3) {
-        let what = rng.below(17);
+        let what = rng.below(19);
         match what {
+            17 | 18 => {
+                // Imports that lead nowhere, to one another, to themselves: `use` lines naming
+                // items that no module declares, modules that do not exist, the importing
+                // module itself — and something that mentions the imported name.
+                let nm = p.modules.len();
+                let name = if !p.items.is_empty() && rng.chance(1, 3) {
+                    p.items[rng.below(p.items.len())].name.clone()
+                } else {
+                    format!("Ghost{}", rng.below(3))
+                };
+                let ring: Vec<usize> = {
+                    let mut v: Vec<usize> = (0..nm).collect();
+                    rng.shuffle(&mut v);
+                    v.truncate(rng.range(1, nm.min(4)));
+                    v
+                };
+                for (k, &m) in ring.iter().enumerate() {
+                    let next = ring[(k + 1) % ring.len()];
+                    let target = match rng.below(6) {
+                        0 => "no::such::module".to_string(),
+                        1 => p.modules[m].item_path(),
+                        _ => p.modules[next].item_path(),
+                    };
+                    let line = match rng.below(4) {
+                        0 => format!("use {target};"),
+                        _ => format!("use {target}::{name};"),
+                    };
+                    p.modules[m].extra_uses.push(line);
+                }
+                // The mention: a field, a pointer field, a signature, an extern value.
+                let m = ring[0];
+                match rng.below(4) {
+                    0 => {
+                        let k = p.modules[m].extern_values.len();
+                        p.modules[m].extern_values.push(crate::project::ExternValue {
+                            vis: true,
+                            name: format!("ghost_value_{k}"),
+                            ty: Ty::Name(name.clone()).mptr(),
+                            address: Some(0x5000 + k * 8),
+                        });
+                        p.modules[m].order.push(Decl::ExternValue(k));
+                    }
+                    which => {
+                        use crate::project::{Flags, Item};
+                        let idx = p.items.len();
+                        let ty = match which {
+                            1 => Ty::Name(name.clone()),
+                            2 => Ty::Name(name.clone()).cptr(),
+                            _ => Ty::Name(name.clone()).arr(2),
+                        };
+                        p.items.push(Item {
+                            module: m,
+                            name: format!("Haunted{idx}"),
+                            vis: true,
+                            doc: None,
+                            kind: ItemKind::Type {
+                                fields: vec![Field {
+                                    vis: true,
+                                    name: "ghost".into(),
+                                    ty,
+                                    address: None,
+                                    base: false,
+                                    doc: None,
+                                }],
+                                vftable: None,
+                                size: None,
+                                align: None,
+                                packed: false,
+                                flags: Flags::default(),
+                                singleton: None,
+                                impl_funcs: vec![],
+                                semicolon_form: false,
+                            },
+                            csize: 0,
+                            calign: 1,
+                            vslots: None,
+                        });
+                        p.modules[m].order.push(Decl::Item(idx));
+                    }
+                }
+                done.push("knob:import_ring".to_string());
+            }
             0..=10 if !types.is_empty() => {
                 let i = *rng.pick(&types);
                 let n_items = p.items.len();
